@@ -119,7 +119,7 @@ def _strip_ty(t):
 
 class Body:
     __slots__ = ("path", "kind", "parent", "file", "line", "argc", "locals", "blocks", "crate",
-                 "pub", "_loops", "_succ", "_pt")
+                 "pub", "generics", "_loops", "_succ", "_pt")
 
     def __init__(self, d, crate):
         self.path = d["path"]
@@ -132,6 +132,7 @@ class Body:
         self.blocks = d["blocks"]
         self.crate = crate
         self.pub = d.get("pub")
+        self.generics = d.get("generics") or []
         self._loops = None
         self._succ = None
 
